@@ -309,6 +309,7 @@ theorem good_leaf (s : K) (l : Leaf K) (hs : l.simple = true) (a b k : Nat) (hab
     exact good_passive s _ a b k _ (fun v => v / r) hab (by simp [mentions]) (fun x => rfl) (fun x j => rfl)
       (fun v i => by simp only [Leaf.rel, relR]; constructor <;> (intro h; rw [h]; field_simp))
   | G g =>
+    simp only [Leaf.simple, decide_eq_true_eq] at hs
     exact good_passive s _ a b k _ (fun v => v / (1 / g)) hab (by simp [mentions]) (fun x => rfl) (fun x j => rfl)
       (fun v i => by simp only [Leaf.rel]; rw [div_div_eq_mul_div, div_one, mul_comm])
   | L l i0 =>
